@@ -136,7 +136,7 @@ func (s e3Shape) render() map[string]string {
 		if s.Silent == "task" {
 			w.WriteString("    silent: true\n")
 		}
-		if s.Shape == "deps" {
+		if s.Shape == "deps" || s.Shape == "depgen" {
 			w.WriteString("    deps: [dep1]\n")
 		}
 		w.WriteString("    cmds:\n")
@@ -150,6 +150,10 @@ func (s e3Shape) render() map[string]string {
 		files["inc.yml"] = inc.String()
 	} else {
 		tut(&b, local)
+	}
+	if s.Shape == "depgen" {
+		// the dependency (re)generates one of the task's own sources from a file outside them, when that file changed
+		b.WriteString("  dep1:\n    cmds:\n      - cmd: " + yamlq(`printf 'dep1 c1\n' >> "$VERIF_TRACE"; if [ "$(cat spec.in)" != "$(cat src/a.txt)" ]; then cat spec.in > src/a.txt; fi`) + "\n")
 	}
 	if s.Shape == "deps" {
 		b.WriteString("  dep1:\n    cmds:\n      - cmd: " + yamlq(`printf 'dep1 c1\n' >> "$VERIF_TRACE"`) + "\n")
@@ -536,6 +540,15 @@ func (st *e3State) step(op e3Op, rng *rand.Rand, part *h.Partial) []e3Verdict {
 		delete(st.files, f)
 		rec.Op = "move " + f + " -> " + t
 		fileOp("move")
+	case "edit-spec":
+		if sh.Shape != "depgen" {
+			rec.Op = "edit-spec(skip)"
+			return nil
+		}
+		st.serial++
+		st.write("spec.in", fmt.Sprintf("content %d\n", st.serial))
+		rec.Op = "edit-spec"
+		part.Count("file_ops", 1)
 	case "edit-unmatched":
 		g := e3Globs[sh.Glob]
 		var cand []string
@@ -715,6 +728,13 @@ func (st *e3State) step(op e3Op, rng *rand.Rand, part *h.Partial) []e3Verdict {
 				inv.yes = true
 			}
 			os.Remove(filepath.Join(st.dir, "spin.started"))
+		}
+		if sh.Shape == "depgen" && st.files["spec.in"] != st.files["src/a.txt"] {
+			// the dependency runs before the task's up-to-date check and rewrites the source: the attempt belongs to
+			// the fingerprint after that (checksum only: the content is predictable, the modification time is not)
+			st.files["src/a.txt"] = st.files["spec.in"]
+			st.changes = append(st.changes, "edit")
+			part.Count("sources_rewritten_by_a_dependency", 1)
 		}
 		fNow := st.fingerprint()
 		genOK := !sh.Gen || st.genExists()
@@ -1073,6 +1093,11 @@ func e3NewState(dir, bin string, s e3Shape, rng *rand.Rand) *e3State {
 	if s.Shape == "labelvar" {
 		st.write("other/e.txt", "other instance\n")
 	}
+	if s.Shape == "depgen" {
+		st.serial++
+		st.write("src/a.txt", fmt.Sprintf("content %d\n", st.serial))
+		st.write("spec.in", st.files["src/a.txt"])
+	}
 	if s.Status {
 		os.WriteFile(filepath.Join(dir, "status.ok"), nil, 0o644)
 	}
@@ -1275,6 +1300,16 @@ func runE3(id string, start time.Time) int {
 					i++
 				}
 			}
+		}
+		// a dependency that regenerates one of the task's own sources: the check and the record are about the sources
+		// as they are after the dependencies ran
+		for _, gen := range []bool{false, true} {
+			s := e3Shape{Method: "checksum", Glob: 0, Shape: "depgen", NCmds: 2, Gen: gen}
+			s.fixNames()
+			jobs = append(jobs, job{s, []e3Op{{Kind: "run"}, {Kind: "run"}, {Kind: "edit-spec"}, {Kind: "run"}, {Kind: "run"}, {Kind: "edit-spec"}, {Kind: "run"}, {Kind: "run"}}, "dep-rewrites-source", i})
+			i++
+			jobs = append(jobs, job{s, []e3Op{{Kind: "edit-spec"}, {Kind: "run"}, {Kind: "run"}, {Kind: "edit"}, {Kind: "run"}, {Kind: "run"}, {Kind: "edit-spec"}, {Kind: "run-force"}, {Kind: "run"}}, "dep-rewrites-source", i})
+			i++
 		}
 		// a source edited while the commands run (after the up-to-date check) must make the next run execute again
 		for _, method := range []string{"checksum", "timestamp"} {
